@@ -89,6 +89,17 @@ def default_policy(g: FuncInfo) -> bool:
     return g.name.startswith("_") and not (g.name.startswith("__") and g.name.endswith("__"))
 
 
+def norm_ann(a) -> str:
+    if a is None:
+        return ""
+    if isinstance(a, ast.Constant) and isinstance(a.value, str):
+        return a.value
+    try:
+        return ast.unparse(a)
+    except Exception:
+        return ""
+
+
 def _is_simple(e: ast.expr) -> bool:
     if isinstance(e, ast.Constant):
         return True
@@ -370,7 +381,7 @@ class Inliner:
             return None
         if isinstance(g.node, ast.AsyncFunctionDef) or g.kind in ("getter", "setter") or g.outer is not None:
             return None
-        if any(d not in TRANSPARENT_DECORATORS and not (ctxmgr and d in CONTEXTMANAGER) for d in g.decorators):
+        if any(d.split("(")[0] not in TRANSPARENT_DECORATORS and not (ctxmgr and d in CONTEXTMANAGER) for d in g.decorators):
             return None
         if ctxmgr != any(d in CONTEXTMANAGER for d in g.decorators):
             return None
@@ -474,8 +485,18 @@ class Inliner:
         for v in bind.values():
             used_in_args |= {n.id for n in ast.walk(v) if isinstance(n, ast.Name)}
         self.counter += 1
+        # `p -= d` on a parameter annotated as an array updates the caller's array in place: binding the
+        # argument's own name is exact (an alias `p = arg` would hide that from the rules)
+        plain_assigned = set()
+        for n_ in ast.walk(holder):
+            if isinstance(n_, ast.Name) and isinstance(n_.ctx, (ast.Store, ast.Del)) and not (isinstance(getattr(n_, "_parent", None), ast.AugAssign) and getattr(n_, "_parent").target is n_):
+                plain_assigned.add(n_.id)
         for p in params:
             v = bind[p]
+            if p in assigned and p not in plain_assigned and isinstance(v, ast.Name) and "ndarray" in norm_ann(g.param_annotation(p)) and v.id not in (assigned - {p}):
+                if v.id != p:
+                    rename[p] = v.id
+                continue
             if p not in assigned and _is_simple(v):
                 # the substituted chain must not be re-bound inside the helper body
                 roots = {n.id for n in ast.walk(v) if isinstance(n, ast.Name)}
